@@ -138,7 +138,11 @@ def hygiene(files=None):
 
 def gen_constants(areas=()):
     rc, out = sh([sys.executable, os.path.join(VERIF, "tools", "constants.py")] + list(areas))
-    return rc == 0, out
+    # the message shapes the repository declares (Gen/Shapes_<crate>.v, for Wire and its users) are
+    # regenerated alongside; a failure of that translator counts for the areas that use them
+    rc2, out2 = sh([sys.executable, os.path.join(VERIF, "tools", "shapes.py")])
+    shapes_ok = rc2 == 0 or (bool(areas) and "Wire" not in areas)
+    return rc == 0 and shapes_ok, out + out2
 
 
 def _area_of(rel):
